@@ -60,6 +60,10 @@ type ReadCfg struct {
 	Bufio int
 	// ZeroBuf: the application now and then calls Read with an empty buffer.
 	ZeroBuf bool
+	// CopyDrain: units that are read to their end are drained with io.Copy
+	// (which prefers a WriteTo method of the reader if there is one) instead
+	// of a Read loop.
+	CopyDrain bool
 	// PerFrame: data messages are consumed frame by frame (NextFrame, then
 	// exactly Header.Length bytes), like a relay would (needs OnInter == 0,
 	// no OnCont, no CheckUTF8).
@@ -142,19 +146,20 @@ type ContRec struct {
 
 // Outcome is everything an application observed.
 type Outcome struct {
-	Recs     []Rec
-	Conts    []ContRec
-	Open     *Rec   // unit being read when the terminal error occurred
-	Err      error  // terminal error (always non-nil when the app returns: streams end)
-	ErrAt    string // API call that returned it
-	Calls    int
-	ZeroRds  int
-	AfterErr []byte // bytes a Read handed out after NextFrame had refused a frame
-	ZeroBuf  bool   // the application now and then calls Read with an empty buffer
-	zeroSalt uint64
-	nreads   int
-	Retry    bool // the application retries a Read that failed with a temporary net.Error
-	retried  bool
+	Recs      []Rec
+	Conts     []ContRec
+	Open      *Rec   // unit being read when the terminal error occurred
+	Err       error  // terminal error (always non-nil when the app returns: streams end)
+	ErrAt     string // API call that returned it
+	Calls     int
+	ZeroRds   int
+	AfterErr  []byte // bytes a Read handed out after NextFrame had refused a frame
+	ZeroBuf   bool   // the application now and then calls Read with an empty buffer
+	CopyDrain bool   // units read to their end are drained with io.Copy
+	zeroSalt  uint64
+	nreads    int
+	Retry     bool // the application retries a Read that failed with a temporary net.Error
+	retried   bool
 }
 
 var bufSizes = [...]int{4096, 1, 2, 3, 5, 8, 16, 64, 512, 70000}
@@ -169,7 +174,7 @@ var errContHandler = errors.New("sim: application handler refuses the fragment")
 // RunApp drives one read-side application over the pipe until the stream ends
 // or an API call fails.
 func RunApp(r *eng.Run, p *Pipe, cfg ReadCfg) *Outcome {
-	o := &Outcome{ZeroBuf: cfg.ZeroBuf, Retry: cfg.Retry}
+	o := &Outcome{ZeroBuf: cfg.ZeroBuf, Retry: cfg.Retry, CopyDrain: cfg.CopyDrain && !cfg.ZeroBuf && !cfg.Retry}
 	switch cfg.App {
 	case AppReader:
 		appReader(r, p, cfg, o)
@@ -187,6 +192,10 @@ func RunApp(r *eng.Run, p *Pipe, cfg ReadCfg) *Outcome {
 
 // readUnit reads the current unit of rd (message or top-level control frame)
 // the way the tape says. It returns false if a terminal error occurred.
+type writerFunc func([]byte) (int, error)
+
+func (f writerFunc) Write(b []byte) (int, error) { return f(b) }
+
 func readUnit(r *eng.Run, p *Pipe, rd io.Reader, discard func() error, rec *Rec, o *Outcome, allowDiscard bool) bool {
 	act := 0
 	if allowDiscard {
@@ -206,6 +215,22 @@ func readUnit(r *eng.Run, p *Pipe, rd io.Reader, discard func() error, rec *Rec,
 	want := -1
 	if act == 4 {
 		want = r.T.Int(sim.LAct, int(rec.Hdr.Length)+2)
+	}
+	if o.CopyDrain && act < 4 {
+		// io.Copy: the reader's own WriteTo if it has one, else a Read loop
+		// (the destination offers nothing but Write).
+		// (Appended as it arrives: a continuation handler that takes bytes
+		// itself appends to the same record in between.)
+		_, err := io.Copy(writerFunc(func(b []byte) (int, error) {
+			rec.Data = append(rec.Data, b...)
+			return len(b), nil
+		}), rd)
+		r.Probe("unit_drained_with_io_copy")
+		if err != nil {
+			o.Open, o.Err, o.ErrAt = rec, err, "Read"
+			return false
+		}
+		return true
 	}
 	for {
 		if want >= 0 && len(rec.Data) >= want {
